@@ -90,13 +90,15 @@ package middleware
 
 //@ func Timeout$1$1
 //@   requires msg != nil && h != nil
-//@   callee H = h
+//@   callee H = h : mayset msg.ctx
 //@   ensures calls(H) == old(calls(H)) + 1 && result0 == ret(H, 0, old(calls(H))) && result1 == ret(H, 1, old(calls(H))) [result-passed-through]
 //@   ensures !cancelled(old(ctxOf(msg))) ==> !cancelled(ctxOf(msg)) [context-not-left-cancelled]
+//@   ensures ctxOf(msg) == old(ctxOf(msg)) [the-original-context-is-back-whatever-the-handler-stored]
 //@   modifies msg.ctx
 //@   assert @call:h: msg.ctx != nil && ctxparent(msg.ctx) == old(ctxOf(msg)) && ctxtimeout(msg.ctx) == timeout && (forall k any :: ctxval(msg.ctx, k) == ctxval(old(ctxOf(msg)), k)) [deadline-visible-during-the-call]
 //@   panics-ensures panicked(H, old(calls(H))) [only-the-handler-panics]
 //@   panics-ensures !cancelled(old(ctxOf(msg))) ==> !cancelled(ctxOf(msg)) [context-not-left-cancelled-when-the-handler-panics]
+//@   panics-ensures ctxOf(msg) == old(ctxOf(msg)) [the-original-context-is-back-when-the-handler-panics]
 
 //@ func MessageCorrelationID
 //@   requires message != nil
